@@ -36,9 +36,16 @@ fn find(p: usize) -> Option<usize> {
     }
     None
 }
+static FAIL_NEXT: AtomicUsize = AtomicUsize::new(0);
+fn fail_hook(on: bool) {
+    FAIL_NEXT.store(on as usize, SeqCst);
+}
 struct Tracking;
 unsafe impl GlobalAlloc for Tracking {
     unsafe fn alloc(&self, l: Layout) -> *mut u8 {
+        if FAIL_NEXT.swap(0, SeqCst) == 1 {
+            return std::ptr::null_mut(); // injected allocator refusal
+        }
         let p = System.alloc(l);
         if !p.is_null() {
             record(p as usize, l.size());
@@ -70,6 +77,7 @@ fn alloc_query(p: *const u8) -> Option<usize> {
 
 fn main() {
     let _ = lru_mem::verif_harness::memsize::ALLOC_QUERY.set(alloc_query);
+    let _ = lru_mem::verif_harness::tm::FAIL_HOOK.set(fail_hook);
     let path = std::env::args().nth(1).expect("usage: replay-runner <cex.json>");
     let s = std::fs::read_to_string(path).unwrap();
     // minimal JSON reading: {"harness": "...", "vals": [[..],[..]]}
